@@ -174,6 +174,24 @@ def run_property(prop: str, tier: str = "quick", replay: Optional[str] = None, t
 
             all_obs.append(Obligation("%s/vacuity#entry-assumptions-satisfiable" % q.replace("pydsdl.", ""),
                                       res.entry_pc, z3.BoolVal(False), res.entry_axioms, q, [], kind="vacuity"))
+    # lemmas over contracts (no code executed): LEMMAS = {name: fn(ctx) -> {label: goal}}
+    for lname, lfn in sorted((getattr(mod, "LEMMAS", {}) or {}).items()):
+        try:
+            res = eng.verify_lemma(lname, lfn)
+        except Exception as e:
+            limits.append("lemma %s: generator crash %s: %s" % (lname, type(e).__name__, e))
+            traceback.print_exc()
+            continue
+        functions.append({"function": "lemma:" + lname, "paths": 1, "obligations": len(res.obligations), "instances": 1,
+                          "source_hash": None, "normal_return_paths": res.normal_paths, "raising_paths": 0})
+        all_obs.extend(res.obligations)
+        limits.extend("lemma %s: %s" % (lname, l) for l in res.limits)
+        if res.entry_pc is not None:
+            from .symexec import Obligation
+            import z3
+
+            all_obs.append(Obligation("lemma.%s/vacuity#hypotheses-satisfiable" % lname, res.entry_pc, z3.BoolVal(False),
+                                      res.entry_axioms, "lemma:" + lname, [], kind="vacuity"))
     gen_time = time.time() - t_gen
 
     extra_results = []
@@ -292,6 +310,16 @@ def run_property(prop: str, tier: str = "quick", replay: Optional[str] = None, t
             violations.append((r, concrete))
         else:
             undecided.append(r)
+    if suite is not None and getattr(suite, "timeouts", None):
+        if native_info is not None:
+            native_info["timeouts"] = suite.timeouts[:3]
+        if getattr(mod, "NATIVE_TIMEOUT_IS_VIOLATION", False):
+            # a property about cost: the real code not finishing a query within the per-call limit on an input of the
+            # bounded enumeration (all of which finish in milliseconds on the pinned tree) is a violation
+            t0_ = suite.timeouts[0]
+            native_failures.append({"function": t0_["function"], "input": t0_["input"], "clause": "time-limit",
+                                    "detail": "the real function did not return within %d s" % t0_["limit_s"],
+                                    "observed": "timeout"})
     for nf in native_failures:
         name = "%s/native#%s" % (nf["function"].replace("pydsdl.", ""), nf["clause"])
         f = match_finding(name)
@@ -303,8 +331,12 @@ def run_property(prop: str, tier: str = "quick", replay: Optional[str] = None, t
             r.func = nf["function"]
             r.status = "native"
             violations.append((r, nf))
+    seen_extra = set()
     for x in extra_results:
         for v in x.get("violations", []):
+            if v["name"] in seen_extra:
+                continue  # one VIOLATION line per named check (the first failing input is the replay)
+            seen_extra.add(v["name"])
             f = match_finding(v["name"])
             if f is not None:
                 known_hits.append((f, None))
@@ -399,6 +431,9 @@ def run_property(prop: str, tier: str = "quick", replay: Optional[str] = None, t
             "second_opinion": second,
             "lean": lean,
             "assumed_contracts": assumed_contracts,
+            "contract_overrides": ["%s: %s (%s) replaced by %s (%s)" % (q_, m1_, "verified" if v1_ else "assumed", m2_,
+                                                                         "verified" if v2_ else "assumed")
+                                   for (q_, m1_, m2_, v1_, v2_) in getattr(REG, "overrides", [])],
             "inlined_accessors": sorted(REG.inline.keys()) if getattr(mod, "REPORT_INLINE", True) else [],
             "assumed_library_contracts": eng.lib_assumed(),
             "prelude_axioms": [{"name": n, "justification": w} for (n, w, a) in eng.prelude_named
